@@ -31,6 +31,7 @@ func rulesC10(w *World, r *Report) {
 	w.ruleDateArith(r, "C10.R3 no overflow on the declared domain")
 	w.ruleDateStructPath(r, "C10.R5 time.Time recognised inside the struct path")
 	w.ruleEveryValueStored(r, "C10.R4 a zero time (null) element keeps its position")
+	w.ruleDateNeverReadFresh(r, "C10.R4 a date is read only behind a dispatcher that has seen the tag")
 }
 
 // ruleDateArith: arithmetic on the wire value in decodeDateValue, partial
@@ -163,4 +164,53 @@ func (w *World) ruleDateStructPath(r *Report, rule string) {
 	}
 	a := d.arm['N']
 	r.add(rule, "(*Decoder).readStruct · tag N", d.pos['N'], a == "null", fmt.Sprintf("tag N resolves to %q (zero time comes back as the untouched zero field)", a))
+}
+
+// ruleDateNeverReadFresh — C10.R4: the encoder writes the zero time as null,
+// so wherever a date can stand on the wire a null can stand too.  The date
+// reader only knows the two date tags; it is correct only behind a dispatcher
+// that has already seen the tag (null goes to the null arm).  Obligation per
+// call of the date reader (the decoder function of the date codec and its
+// Decoder wrapper) from the decode path: the tag argument is not the "read a
+// fresh tag" constant — a fast path that reads the elements of a []time.Time
+// with readDate(_tagRead) fails on the first zero time.
+func (w *World) ruleDateNeverReadFresh(r *Report, rule string) {
+	c := w.codecs()["date"]
+	if c == nil || c.Dec == nil {
+		r.undecided(rule, "date codec", "-", "not found")
+		return
+	}
+	readers := map[*ssa.Function]bool{c.Dec: true}
+	if c.Wrap != nil {
+		readers[c.Wrap] = true
+	}
+	reach := w.reachPkg(w.decodeEntryPoints()...)
+	n := 0
+	for _, fn := range w.SrcFuncs() {
+		if readers[fn] || (!reach[fn] && !reach[rootFn(fn)]) {
+			continue
+		}
+		for _, cs := range w.callSitesIn(fn) {
+			sc := cs.call.Call.StaticCallee()
+			if sc == nil || !readers[sc] {
+				continue
+			}
+			n++
+			// the flag argument: the int32 parameter
+			var flag ssa.Value
+			for i, a := range cs.call.Call.Args {
+				if i < len(sc.Params) && typeStr(sc.Params[i].Type()) == "int32" {
+					flag = a
+				}
+			}
+			fresh := false
+			if k, ok := flag.(*ssa.Const); ok && k.Value != nil && k.Int64() == -1 {
+				fresh = true
+			}
+			r.add(rule, fnName(fn)+" · "+cs.key(), w.instrPos(cs.call), !fresh, map[bool]string{
+				false: "the date reader is handed a tag the caller has already classified: a null (zero time) never reaches it",
+				true:  "the date reader is asked to read a fresh tag: the null the encoder writes for a zero time is refused (\"error date tag: 0x4e\")"}[fresh])
+		}
+	}
+	r.floor(rule+" (calls of the date reader on the decode path)", n, 1)
 }
